@@ -621,10 +621,15 @@ pub fn c20(pid: i32, o: &DumpOpts, bytes: &[u8]) -> Vec<(String, String)> {
         let Some(mem) = read_target(pid, sp, (sl.end - sp) as usize) else { continue };
         let mut sure_in = ip >= nlo && ip < nhi;
         let mut maybe_in = ip >= wlo && ip < whi;
+        // with the size limit engaged a stack may have been cut to the 2 KiB chunk holding sp before the
+        // filter looked at it: only references inside that chunk are certain then
+        let certain_len = if o.size_limit.is_some() { (2048 - (sp & 2047)) as usize } else { usize::MAX };
         let mut o8 = (((sp + 7) & !7) - sp) as usize;
         while o8 + 8 <= mem.len() {
             let w = u64::from_le_bytes(mem[o8..o8 + 8].try_into().unwrap());
-            sure_in |= w >= nlo && w < nhi;
+            if o8 + 8 <= certain_len {
+                sure_in |= w >= nlo && w < nhi;
+            }
             maybe_in |= w >= wlo && w < whi;
             o8 += 8;
         }
